@@ -422,7 +422,9 @@ def produce(ctx, tape, n_sets):
                 header = {"alg": alg}
                 if mode == "kid":
                     header["kid"] = ks.keys[i].kid
-                for kind in ("compact", "flat", "general", "c7797", "c7797-detached", "j7797"):
+                for kind, via in [(k_, v_) for k_ in ("compact", "flat", "general", "c7797", "c7797-detached", "j7797") for v_ in ("set", "callable-set")]:
+                    # the set given directly, and through a callable that returns it: the same selection either way
+                    ks_arg = ks if via == "set" else (lambda obj, ks=ks: ks)
                     tape.picks = [pick]
                     hdr = copy.deepcopy(header)
                     if "7797" in kind:
@@ -431,33 +433,33 @@ def produce(ctx, tape, n_sets):
                         if kind in ("c7797", "c7797-detached"):
                             from joserfc import rfc7797
                             pl = b"payload" if kind == "c7797" else b"pay.load $"
-                            tok = rfc7797.serialize_compact(hdr, pl, ks, algorithms=J.ALL_ALGS)
+                            tok = rfc7797.serialize_compact(hdr, pl, ks_arg, algorithms=J.ALL_ALGS)
                             seen = json.loads(base64.urlsafe_b64decode(tok.split(".")[0] + "=="))
                             back = rfc7797.deserialize_compact(tok, pubset, payload=(pl if kind == "c7797-detached" else None), algorithms=J.ALL_ALGS)
                             if back.payload == pl:
                                 back.payload = b"payload"
                         elif kind == "j7797":
                             from joserfc import rfc7797
-                            tok = rfc7797.serialize_json({"protected": hdr}, b"payload", ks, algorithms=J.ALL_ALGS)
+                            tok = rfc7797.serialize_json({"protected": hdr}, b"payload", ks_arg, algorithms=J.ALL_ALGS)
                             seen = dict(json.loads(base64.urlsafe_b64decode(tok["protected"] + "==")), **tok.get("header", {}))
                             back = rfc7797.deserialize_json(tok, pubset, algorithms=J.ALL_ALGS)
                         elif kind == "compact":
-                            tok = jws.serialize_compact(hdr, b"payload", ks, algorithms=J.ALL_ALGS)
+                            tok = jws.serialize_compact(hdr, b"payload", ks_arg, algorithms=J.ALL_ALGS)
                             seen = json.loads(base64.urlsafe_b64decode(tok.split(".")[0] + "=="))
                             back = jws.deserialize_compact(tok, pubset, algorithms=J.ALL_ALGS)
                         elif kind == "flat":
-                            tok = jws.serialize_json({"protected": hdr}, b"payload", ks, algorithms=J.ALL_ALGS)
+                            tok = jws.serialize_json({"protected": hdr}, b"payload", ks_arg, algorithms=J.ALL_ALGS)
                             seen = dict(json.loads(base64.urlsafe_b64decode(tok["protected"] + "==")), **tok.get("header", {}))
                             back = jws.deserialize_json(tok, pubset, algorithms=J.ALL_ALGS)
                         else:
-                            tok = jws.serialize_json([{"protected": hdr}], b"payload", ks, algorithms=J.ALL_ALGS)
+                            tok = jws.serialize_json([{"protected": hdr}], b"payload", ks_arg, algorithms=J.ALL_ALGS)
                             sg = tok["signatures"][0]
                             seen = dict(json.loads(base64.urlsafe_b64decode(sg["protected"] + "==")), **sg.get("header", {}))
                             back = jws.deserialize_json(tok, pubset, algorithms=J.ALL_ALGS)
                         out = "ok"
                     except Exception as e:  # noqa: BLE001
                         out, seen, back = err_name(e), {}, None
-                    ctx.count("keyset-produce", (repr(names), i, mode, kind, pick), True, out)
+                    ctx.count("keyset-produce", (repr(names), i, mode, kind, via, pick), True, f"{via}:{out}")
                     exp_i = i if mode == "kid" else expected_pick(names, alg, pick)
                     if exp_i is not None and not suited(alg, names[exp_i][0]):
                         # a key of the required *type* but wrong curve was picked: no token may be produced with it
@@ -466,12 +468,12 @@ def produce(ctx, tape, n_sets):
                         continue
                     if out != "ok":
                         ctx.report(f"signing with a key set ({mode}) or verifying the result against the public set failed: {out}",
-                                   {"names": names, "i": i, "mode": mode, "kind": kind}, f"produce:{mode}:failed")
+                                   {"names": names, "i": i, "mode": mode, "kind": kind, "via": via}, f"produce:{mode}:{via}:failed")
                         continue
                     kid = seen.get("kid")
                     used = [k for k in ks.keys if k.kid == kid]
                     if not used:
-                        ctx.report("produced token carries no kid of the set", {"header": seen}, f"produce:{mode}:no-kid")
+                        ctx.report(f"produced token carries no kid of the set (key argument: {via})", {"header": seen, "via": via}, f"produce:{mode}:{via}:no-kid")
                         continue
                     if mode == "kid" and used[0] is not ks.keys[i]:
                         ctx.report("signing with an explicit kid used another key", {"header": seen}, "produce:kid:wrong-key")
@@ -490,6 +492,15 @@ def produce(ctx, tape, n_sets):
                 pick = rng.randrange(8)
                 tape.picks = [pick]
                 exp_i = i if mode == "kid" else expected_pick(encset_names, alg, pick)
+                # the same through a callable that returns the set (first, so that the direct call below decides `out`)
+                tape.picks = [pick]
+                try:
+                    tokc = jwe.encrypt_compact(copy.deepcopy(hdr), b"plaintext", (lambda obj, eks=eks: eks), algorithms=jwe_all)
+                    seenc = json.loads(base64.urlsafe_b64decode(tokc.split(".")[0] + "=="))
+                    outc = "ok" if jwe.decrypt_compact(tokc, (lambda obj, eks=eks: eks), algorithms=jwe_all).plaintext == b"plaintext" else "wrong-plaintext"
+                except Exception as e:  # noqa: BLE001
+                    outc, seenc = err_name(e), {}
+                tape.picks = [pick]
                 try:
                     tok = jwe.encrypt_compact(copy.deepcopy(hdr), b"plaintext", eks, algorithms=jwe_all)
                     seen = json.loads(base64.urlsafe_b64decode(tok.split(".")[0] + "=="))
@@ -497,6 +508,10 @@ def produce(ctx, tape, n_sets):
                     out = "ok" if back.plaintext == b"plaintext" else "wrong-plaintext"
                 except Exception as e:  # noqa: BLE001
                     out, seen = err_name(e), {}
+                ctx.count("keyset-jwe-callable", (repr(encset_names), i, mode), True, outc)
+                if (outc, seenc.get("kid")) != (out, seen.get("kid")):
+                    ctx.report(f"JWE with a key set given through a callable ({mode}): {outc}, kid {seenc.get('kid')!r}; given directly: {out}, kid {seen.get('kid')!r}",
+                               {"names": encset_names, "alg": alg, "header": hdr}, f"jwe-keyset:{mode}:callable-differs")
                 ctx.count("keyset-jwe", (repr(encset_names), i, mode), True, out)
                 if exp_i is not None and not suited(alg, encset_names[exp_i][0]):
                     if out == "ok":
